@@ -113,13 +113,43 @@ func (b *Batch) Encode() []byte {
 	return b.encodeLegacy()
 }
 
-func (b *Batch) encodeV2() []byte {
+// EncodedRecords returns the uncompressed record section: the v2 records, or the
+// concatenated inner messages of a legacy wrapper (nil for a plain legacy message).
+func (b *Batch) EncodedRecords() []byte {
 	var recs []byte
+	if b.Format == V2 {
+		for i := range b.Records {
+			recs = encodeRecord(recs, &b.Records[i], b.BaseOffset, b.BaseTimestamp)
+		}
+		return recs
+	}
+	if !b.IsWrapper() {
+		return nil
+	}
+	first := b.Records[0].Offset
 	for i := range b.Records {
-		recs = encodeRecord(recs, &b.Records[i], b.BaseOffset, b.BaseTimestamp)
+		r := &b.Records[i]
+		stored := r.Offset
+		if b.Format == V1 && b.Inner == InnerRelative {
+			stored = r.Offset - first + b.Bias
+		}
+		// inner messages carry no codec and their own (create time) timestamp
+		recs = legacyMessage(recs, b.Format, stored, 0, r.Timestamp, r.Key, r.Value)
+	}
+	return recs
+}
+
+func (b *Batch) encodeV2() []byte {
+	recs := b.EncodedRecords()
+	if b.RawRecords != nil {
+		recs = b.RawRecords
 	}
 	recs = cut(recs, b.CutRecords)
 	payload := cut(b.compress(recs), b.CutPayload)
+	count := int32(len(b.Records))
+	if b.CountOverride != nil {
+		count = *b.CountOverride
+	}
 
 	maxTs := b.MaxTimestamp
 	if b.LogAppendTime {
@@ -133,7 +163,7 @@ func (b *Batch) encodeV2() []byte {
 	body = be64(body, uint64(b.ProducerID))
 	body = be16(body, uint16(b.ProducerEpoch))
 	body = be32(body, uint32(b.BaseSequence))
-	body = be32(body, uint32(len(b.Records)))
+	body = be32(body, uint32(count))
 	body = append(body, payload...)
 
 	var out []byte
@@ -171,21 +201,16 @@ func (b *Batch) encodeLegacy() []byte {
 		}
 		return legacyMessage(nil, b.Format, r.Offset, attrs, ts, r.Key, r.Value)
 	}
-	first := b.Records[0].Offset
 	last := b.Records[len(b.Records)-1].Offset
-	var inner []byte
 	maxTs := int64(-1)
 	for i := range b.Records {
-		r := &b.Records[i]
-		stored := r.Offset
-		if b.Format == V1 && b.Inner == InnerRelative {
-			stored = r.Offset - first + b.Bias
+		if ts := b.Records[i].Timestamp; ts > maxTs {
+			maxTs = ts
 		}
-		// inner messages carry no codec and their own (create time) timestamp
-		inner = legacyMessage(inner, b.Format, stored, 0, r.Timestamp, r.Key, r.Value)
-		if r.Timestamp > maxTs {
-			maxTs = r.Timestamp
-		}
+	}
+	inner := b.EncodedRecords()
+	if b.RawRecords != nil {
+		inner = b.RawRecords
 	}
 	inner = cut(inner, b.CutRecords)
 	payload := cut(b.compress(inner), b.CutPayload)
